@@ -298,8 +298,30 @@ func genC19(cs *CaseSet, rng *Rng, tier string, dir string) {
 				w.Close()
 			}(i)
 		}
+		// in every other history the agreement is reloaded from its file (SIGHUP / the API's reload) over and over while
+		// the logins proceed: the file holds what the store holds, so everybody is still shown the complete text
+		stopReload := make(chan struct{})
+		reloadDone := make(chan struct{})
+		if ag, ok := env.Srv.Agreement.(*mobius.Agreement); ok && h%2 == 1 {
+			go func() {
+				defer close(reloadDone)
+				<-start
+				for {
+					select {
+					case <-stopReload:
+						return
+					default:
+						ag.Reload()
+					}
+				}
+			}()
+		} else {
+			close(reloadDone)
+		}
 		close(start)
 		wg.Wait()
+		close(stopReload)
+		<-reloadDone
 		cs.Add(Case{Kind: "agreement-logins", Ops: []Op{mkOp(5, "concurrent-logins", text, be16(n))}, Obs: [][][]byte{shown}, NonTrivial: n >= 8 && len(text) >= 600})
 	}
 }
